@@ -140,6 +140,81 @@ fn table_role(p: &FP, roles: &HashMap<u32, (u8, u32, u32)>) -> Value {
 /// Emit the trace of one verify_batch call. Returns false when the call is not suitable for arithmetic validation
 /// (a point shared between roles), in which case only the transcript part is emitted.
 pub fn verify_trace(rec: &CallRec, toks: &mut Toks, arith: bool, out: &mut Vec<Value>) {
+    // An accepted batch above the chunk limit is several verifications, one per chunk of 256 members, each with its own
+    // weights and its own final check: one implementation call = several specification calls. The recorded events are
+    // split by chunk (transcript operations by time window, final checks in order) and every chunk is emitted as a call.
+    const CH: usize = 256;
+    let info = &rec.info;
+    let np = info["members"].as_array().map(|a| a.len()).unwrap_or(0);
+    let ntrans = info["ntrans"].as_u64().unwrap_or(0) as usize;
+    let mixed_pos: Vec<usize> = rec.group.iter().enumerate().filter(|(_, g)| matches!(g, GEv::Mixed(_))).map(|(i, _)| i).collect();
+    let nch = (np + CH - 1) / CH;
+    if np > CH && info["result"] == "ok" && info["nstmts"].as_u64() == Some(np as u64) && info["nproofs"].as_u64() == Some(np as u64) && ntrans == np && mixed_pos.len() == nch {
+        let caller: Vec<(usize, u64)> = rec.merlin.iter().enumerate().filter_map(|(i, e)| if let Ev::TNew { tid, .. } = e { Some((i, *tid)) } else { None }).take(ntrans).collect();
+        let chunk_of: HashMap<u64, usize> = caller.iter().enumerate().map(|(x, (_, t))| (*t, x / CH)).collect();
+        let ev_tid = |e: &Ev| -> Option<u64> {
+            match e {
+                Ev::TNew { tid, .. } | Ev::TAppend { tid, .. } | Ev::TChal { tid, .. } | Ev::RBuild { tid, .. } => Some(*tid),
+                Ev::TClone { from, .. } => Some(*from),
+                _ => None,
+            }
+        };
+        // the caller prepares its transcripts one after the other (creation, then its own context appends): the library call
+        // begins with the first event after the last creation that is not on that last transcript
+        let last_new = caller.last().map(|(i, _)| *i).unwrap_or(0);
+        let last_tid = caller.last().map(|(_, t)| *t);
+        let pre_end = rec.merlin.iter().enumerate().skip(last_new + 1).find(|(_, e)| ev_tid(e) != last_tid).map(|(i, _)| i).unwrap_or(rec.merlin.len());
+        let mut starts = vec![rec.merlin.len(); nch + 1];
+        for (i, e) in rec.merlin.iter().enumerate().skip(pre_end) {
+            if let Some(c) = ev_tid(e).and_then(|t| chunk_of.get(&t)) {
+                if starts[*c] == rec.merlin.len() {
+                    starts[*c] = i;
+                }
+            }
+        }
+        starts[0] = pre_end;
+        // a transcript the library creates itself (the weight transcript; it is created and labelled before the chunk's
+        // first member is touched) belongs to the chunk in whose window it is LAST used
+        let window_of = |i: usize| -> usize { (0..nch).rev().find(|c| starts[*c] <= i).unwrap_or(0) };
+        let mut owner: Vec<usize> = (0..rec.merlin.len()).map(|i| if i < pre_end { usize::MAX } else { window_of(i) }).collect();
+        let mut last_use: HashMap<u64, usize> = HashMap::new();
+        for i in pre_end..rec.merlin.len() {
+            if let Some(t) = ev_tid(&rec.merlin[i]) {
+                if !chunk_of.contains_key(&t) {
+                    last_use.insert(t, i);
+                }
+            }
+        }
+        for i in pre_end..rec.merlin.len() {
+            if let Some(u) = ev_tid(&rec.merlin[i]).and_then(|t| last_use.get(&t)) {
+                owner[i] = window_of(*u);
+            }
+        }
+        let monotone = (0..nch).all(|c| starts[c] < rec.merlin.len() && (c == 0 || starts[c - 1] < starts[c]));
+        if monotone {
+            for c in 0..nch {
+                let (lo, hi) = (c * CH, ((c + 1) * CH).min(np));
+                let mut minfo = info.clone();
+                minfo["members"] = json!(info["members"].as_array().unwrap()[lo..hi].to_vec());
+                if let Some(ms) = info["masks"].as_array() {
+                    minfo["masks"] = json!(ms.iter().skip(lo).take(hi - lo).cloned().collect::<Vec<_>>());
+                }
+                for k in ["nstmts", "nproofs", "ntrans"] {
+                    minfo[k] = json!(hi - lo);
+                }
+                let mut mer: Vec<Ev> = rec.merlin[..pre_end].iter().filter(|e| ev_tid(e).and_then(|t| chunk_of.get(&t)) == Some(&c)).cloned().collect();
+                mer.extend((pre_end..rec.merlin.len()).filter(|i| owner[*i] == c).map(|i| rec.merlin[i].clone()));
+                let glo = if c == 0 { 0 } else { mixed_pos[c - 1] + 1 };
+                let part = CallRec { kind: "verify", merlin: mer, group: rec.group[glo..=mixed_pos[c]].to_vec(), info: minfo };
+                verify_trace_one(&part, toks, arith, out);
+            }
+            return;
+        }
+    }
+    verify_trace_one(rec, toks, arith, out);
+}
+
+fn verify_trace_one(rec: &CallRec, toks: &mut Toks, arith: bool, out: &mut Vec<Value>) {
     let info = &rec.info;
     let members = info["members"].as_array().unwrap();
     let np = members.len();
